@@ -1682,8 +1682,9 @@ fn process_stream_search_params<T: Read + Write>(
         }
         i += 1;
     }
+    // i points already to the next msg to check
     let next_search_idx = if i < stream_msgs_len {
-        Some(i + 1)
+        Some(i)
     } else {
         None
     };
